@@ -135,12 +135,25 @@ def _search(ctx, F, fn):
             some_arms.append(dict(bb=vs['bb'], arm=vs['arms']['Some'], none=vs['arms'].get('None'), existing=ex_locals, line=vs['line']))
     n_checked = 0
     replay_stage = []
+    helper_stage = []
     for s in sites:
         if s['bb'] not in after:
             continue
         # which value is stored? follow `fv = move X` to the Some(..) aggregates defining X
         srcs = _some_sources(fn, s)
         stage_arm = [a for a in some_arms if fn.dominates(a['bb'], s['bb'])]
+        nh = _narrowing_call(F, fn, srcs, fv)
+        if nh is not None:
+            # `filter = Some(narrow(filter, new_set)?)`: the Some/None match lives in a private helper that only narrows
+            call, h = nh
+            ctx.touch(h, len(h.blocks))
+            ctx.evaluations += 2
+            n_checked += 2
+            ctx.ok('FLOW-C11a', fn, 'filter redefined through %s, which returns the incoming set when there is no filter yet and otherwise a subset derived from the existing one' % h.name, line=s['line'])
+            inc = lib.slice_back(fn, call.args[1:2], through_calls=True, at=(call.bb, None), stop_locals=(fv,))
+            if rep in inc.calls:
+                helper_stage.append(s)
+            continue
         if not stage_arm:
             continue
         arm = max(stage_arm, key=lambda a: len(fn.reachable(0)) - len(fn.reachable(a['bb'])))   # innermost
@@ -166,9 +179,18 @@ def _search(ctx, F, fn):
                 # None arm: at the replay stage the new set must be the replay set
                 if is_replay_stage:
                     ctx.ok('FLOW-C11a', fn, 'None arm at the replay stage installs the replay set', line=line)
-    ctx.floor('FLOW-C11a', n_checked, 3, 'filter redefinitions after the replay call')
+    ctx.floor('FLOW-C11a', n_checked, 2, 'filter redefinitions after the replay call')
     # C11b: replay stage covers both arms
-    if not replay_stage:
+    if helper_stage and not replay_stage:
+        store_bbs = {s['bb'] for s in helper_stage}
+        ctx.ok('MPT-C11b', fn, 'replay stage: the set derived from get_replay_frame_ids is the incoming set of the narrowing helper in both of its arms', line=helper_stage[0]['line'])
+        for c in eng_calls:
+            ctx.evaluations += 1
+            if rsb is not None and c.bb in fn.reachable(rsb, avoid=store_bbs):
+                ctx.bad('MPT-C11b', fn, 'engine call %s reachable from the replay stage without the filter being updated' % c.key, line=c.line, detail='replay-bypass:' + c.key)
+            else:
+                ctx.ok('MPT-C11b', fn, 'engine call %s is reached from the replay stage only through the filter update' % c.key.split('::')[-1], line=c.line)
+    elif not replay_stage:
         ctx.bad('MPT-C11b', fn, 'the ids returned by get_replay_frame_ids never reach the candidate filter', line=rep.line, detail='replay-not-in-filter')
     else:
         for s, srcs, arm in replay_stage:
@@ -201,6 +223,46 @@ def _search(ctx, F, fn):
                 reqf = {f for o, f in sl.fields if o == 'SearchRequest'}
                 if reqf - {'as_of_frame', 'as_of_ts', 'query'} and not (reqf & {'as_of_frame', 'as_of_ts'}):
                     ctx.bad('MPT-C11b', fn, 'the replay stage is skipped depending on request.%s' % sorted(reqf), line=bs['line'], detail='replay-skipped-on:' + ','.join(sorted(reqf)))
+
+
+def _narrowing_call(F, fn, srcs, fv):
+    """the Some(payload) stored into the filter comes from a call H(old filter, incoming) of a local helper that only narrows:
+    in H every returned Some(x) is, on the Some(existing) arm of its first parameter, derived from `existing`, and elsewhere derived
+    from its second parameter. Returns (call, H) or None."""
+    for bb_, payload, _ in srcs:
+        if payload is None:
+            continue
+        sl = lib.slice_back(fn, [payload], through_calls=True, at=(bb_, None), stop_locals=(fv,))
+        for c in sl.calls:
+            h = F.fns.get(c.local_callee) if c.local_callee else None
+            if h is None or h.is_closure or h.r['argc'] != 2 or h.local_ty(1) != FILTER_TY or h.local_ty(0) != FILTER_TY or 'HashSet<u64>' not in h.local_ty(2):
+                continue
+            if fv not in (lib.slice_back(fn, c.args[:1], through_calls=False, at=(c.bb, None)).locals | {op_place(c.args[0]).l if op_place(c.args[0]) is not None else -1}):
+                continue
+            arms = [vs for vs in lib.variant_switches(h) if vs['enum'] == 'Option' and vs['place'].l == 1 and 'Some' in vs['arms']]
+            if len(arms) != 1:
+                continue
+            vs = arms[0]
+            existing = set()
+            for b in h.reachable(vs['arms']['Some']):
+                for st in h.blocks[b]['s']:
+                    if st['rv']['k'] == 'use':
+                        q = op_place(st['rv']['a'])
+                        if q is not None and q.l == 1 and 'Some' in q.downcasts():
+                            existing.add(st['lhs']['l'])
+            good, n = True, 0
+            for b2, i2, st in h.stmts():
+                rv = st['rv']
+                if rv['k'] == 'agg' and rv.get('adt') == 'Option' and rv.get('variant') == 'Some' and FILTER_TY == h.local_ty(st['lhs']['l']):
+                    n += 1
+                    ps = lib.slice_back(h, rv['ops'][:1], through_calls=True, at=(b2, i2))
+                    if lib.edge_dominates(h, vs['bb'], vs['arms']['Some'], b2):
+                        good = good and bool(existing & ps.locals)
+                    else:
+                        good = good and 2 in ps.args and 1 not in ps.args
+            if good and n >= 2 and existing:
+                return c, h
+    return None
 
 
 def _some_sources(fn, site):
@@ -261,6 +323,8 @@ def _replay_ids(ctx, F):
                     if read - {'id'}:
                         ctx.bad('GUARD-C11c', fn, '%s over toc.frames keyed by Frame.%s: frames are ordered by id only, so the cut-off is not applied to every frame'
                                 % (c.name, ','.join(sorted(read - {'id'}))), line=c.line, detail='binary-search-on-unsorted-key:' + ','.join(sorted(read - {'id'})))
+    if not pushes and _replay_ids_chain(ctx, F, fn):
+        return
     if not ctx.floor('GUARD-C11c', len(pushes), 1, 'push of a matching id'):
         return
     cmps = lib.comparisons(fn)
@@ -308,6 +372,85 @@ def _replay_ids(ctx, F):
                 roots |= lib.root_of(fn, op_place(p.args[0]).l)
             if not (roots & sl.locals):
                 ctx.bad('GUARD-C11c', fn, 'returned vector is not the filtered one', line=ex['line'], detail='returned-vector')
+
+
+def _replay_ids_chain(ctx, F, fn):
+    """iterator form of the same filter: toc.frames.iter().filter(..)...map(|f| f.id).collect(). Per axis a filter closure of the
+    chain must return `request.<cutoff>.is_none_or(|c| frame.<field> <= c)` (or map_or(true, ..)): None admits, Some(c) admits
+    only frame.field <= c. Returns False when the function is not of this form (the caller then reports the lost anchor)."""
+    col = [c for c in fn.calls() if c.name == 'collect']
+    if len(col) != 1:
+        return False
+    chain = lib.slice_back(fn, col[0].args[:1], through_calls=True, at=(col[0].bb, None))
+    if not chain.has_field('Toc', 'frames'):
+        return False
+    filt, maps = [], []
+    for c in chain.calls:
+        if c.name in ('filter', 'map') and len(c.args) > 1:
+            for cp in lib.slice_back(fn, c.args[1:2], through_calls=False, at=(c.bb, None)).closures:
+                if cp in F.fns:
+                    (filt if c.name == 'filter' else maps).append(F.fns[cp])
+    if not filt or any(c.name in ('filter_map', 'flat_map', 'take', 'skip', 'take_while', 'skip_while', 'step_by') for c in chain.calls):
+        return False
+
+    def single_cmp(cl):
+        outs = [(bb, i, st) for bb, i, st in cl.stmts() if st['lhs']['l'] == 0 and not st['lhs'].get('p')]
+        if len(outs) != 1 or outs[0][2]['rv']['k'] != 'bin':
+            return None
+        bb, i, st = outs[0]
+        return st['rv']['op'], lib.slice_back(cl, [st['rv']['a']], through_calls=False, at=(bb, i)), lib.slice_back(cl, [st['rv']['b']], through_calls=False, at=(bb, i)), st.get('l')
+
+    for axis, reqf, framef in (('frame id', 'as_of_frame', 'id'), ('timestamp', 'as_of_ts', 'timestamp')):
+        ctx.evaluations += len(filt)
+        verdict = None
+        for cl in filt:
+            ctx.touch(cl, len(cl.blocks))
+            for x in cl.calls():
+                if x.name not in ('is_none_or', 'map_or') or not x.args:
+                    continue
+                if not lib.slice_back(cl, x.args[:1], through_calls=False, at=(x.bb, None)).has_field('SearchRequest', reqf):
+                    continue
+                inner_arg = x.args[1] if x.name == 'is_none_or' else (x.args[2] if len(x.args) > 2 else None)
+                if x.name == 'map_or' and not (x.args[1].get('k', {}).get('v') is True):
+                    verdict = ('bad', x.line, 'a request without %s does not admit every frame (map_or default is not true)' % reqf, 'cutoff-none-rejects:' + reqf)
+                    continue
+                if x.dest is None or x.dest.l != 0 or x.dest.p:
+                    verdict = verdict or ('lost', x.line, 'the result of %s is post-processed before it is returned' % x.name, None)
+                    continue
+                inner = [F.fns[q] for q in lib.slice_back(cl, [inner_arg], through_calls=False, at=(x.bb, None)).closures if q in F.fns] if inner_arg is not None else []
+                cm = single_cmp(inner[0]) if len(inner) == 1 else None
+                if cm is None:
+                    verdict = verdict or ('lost', x.line, 'the per-frame predicate of %s is not a single comparison' % reqf, None)
+                    continue
+                op, a, b, line = cm
+                ctx.touch(inner[0], 1)
+                fa, fb = a.has_field('Frame', framef), b.has_field('Frame', framef)
+                pa, pb = 2 in a.args, 2 in b.args
+                arith = (a.ops | b.ops) or any(cc.name.startswith(('saturating_', 'wrapping_', 'checked_')) for cc in list(a.calls) + list(b.calls))
+                if arith:
+                    verdict = ('bad', line, 'the %s cut-off is not compared as given: frame.%s or the cut-off is shifted by arithmetic before the comparison' % (axis, framef), 'cutoff-shifted:' + reqf)
+                elif (fa and pb and op in ('Le', 'Lt', 'Eq')) or (fb and pa and op in ('Ge', 'Gt', 'Eq')):
+                    verdict = ('ok', line, 'chain admits a frame only when %s is None or frame.%s <= cutoff' % (reqf, framef), None)
+                else:
+                    verdict = ('bad', line, 'a frame id can be collected without passing `frame.%s <= %s`' % (framef, reqf), 'cutoff-bypass:' + reqf)
+        if verdict is None:
+            ctx.bad('GUARD-C11c', fn, 'no per-frame comparison of frame.%s with request.%s' % (framef, reqf), line=col[0].line, detail='no-cutoff-cmp:' + reqf)
+        elif verdict[0] == 'ok':
+            ctx.ok('GUARD-C11c', fn, verdict[2], line=verdict[1])
+        elif verdict[0] == 'bad':
+            ctx.bad('GUARD-C11c', fn, verdict[2], line=verdict[1], detail=verdict[3])
+        else:
+            ctx.lost('GUARD-C11c', 'get_replay_frame_ids (iterator form): ' + verdict[2])
+    okmap = len(maps) == 1 and any(st['lhs']['l'] == 0 and lib.slice_back(maps[0], lib.rv_operands(st['rv']), through_calls=False, at=(bb, i)).has_field('Frame', 'id')
+                                   and not lib.slice_back(maps[0], lib.rv_operands(st['rv']), through_calls=False, at=(bb, i)).ops for bb, i, st in maps[0].stmts())
+    if okmap:
+        ctx.ok('GUARD-C11c', fn, 'the value collected is frame.id', line=col[0].line)
+    else:
+        ctx.bad('GUARD-C11c', fn, 'the value collected is not frame.id', line=col[0].line, detail='pushed-value')
+    for ex in fn.ok_exits():
+        if ex['kind'] == 'ok' and col[0] not in lib.slice_back(fn, ex['rv']['ops'], through_calls=False).calls:
+            ctx.bad('GUARD-C11c', fn, 'returned vector is not the filtered one', line=ex['line'], detail='returned-vector')
+    return True
 
 
 def _engines(ctx, F):
